@@ -74,6 +74,92 @@ def nested_case(rng, depth, lang):
     return {"schemas": g.schemas(), "passes": [], "lang": lang}
 
 
+def offenders_of(ctx, tag, lang, outcome):
+    """[(pkg, object name, violation)] for the IR a chain produced"""
+    path = os.path.join(ctx.scratch, "nfo_%s.v" % tag)
+    with open(path, "w") as f:
+        f.write(passlib.PREAMBLE % "Model.Spec06")
+        f.write('Eval vm_compute in (match %s with Ok out => nf_offenders "%s" out | _ => [] end).\n' % (outcome, lang))
+    rc, out = core.coqc_file(path)
+    return re.findall(r'\("([^"]*)", "([^"]*)", "([^"]*)"\)', re.sub(r"\s+", " ", out))
+
+
+def object_text(outcome, pkg, name):
+    m = re.search(r'\("%s", \(mkObject "%s".*?"%s" "%s"\)\)' % (re.escape(name), re.escape(name), re.escape(pkg), re.escape(name)), outcome)
+    return m.group(0) if m else ""
+
+
+def _walk_types(t):
+    yield t
+    k = t.get("k")
+    subs = []
+    if k == "array":
+        subs = [t.get("v")]
+    elif k == "map":
+        subs = [t.get("i"), t.get("v")]
+    elif k == "struct":
+        subs = [f["type"] for f in t.get("fields", [])]
+    elif k in ("disj", "inter"):
+        subs = t.get("branches", [])
+    elif k == "enum":
+        subs = [v["type"] for v in t.get("values", [])]
+    for x in subs:
+        if x:
+            yield from _walk_types(x)
+
+
+def input_features(job):
+    """shapes of the input the chain passes are known not to handle (root causes of known findings)"""
+    feats = set()
+    for s_ in job["schemas"]:
+        for o in s_["objects"]:
+            for t in _walk_types(o["type"]):
+                if t.get("k") == "disj":
+                    for b in t.get("branches", []):
+                        if any(x.get("k") == "disj" for x in _walk_types(b)):
+                            feats.add("union-inside-union-branch")
+                        if any(x.get("k") == "struct" for x in _walk_types(b)):
+                            feats.add("struct-inside-union-branch")
+                    bs = t.get("branches", [])
+                    if bs and all(b.get("k") == "scalar" for b in bs) and len({b.get("sk") for b in bs}) == 1:
+                        feats.add("single-kind-scalar-union")
+                if t.get("k") == "inter":
+                    if any(x.get("k") in ("struct", "disj") for b in t.get("branches", []) for x in _walk_types(b)):
+                        feats.add("struct-or-union-inside-intersection")
+    return feats
+
+
+def cause_of(lang, violation, objtext, name, input_names, input_alias_names, feats):
+    """root cause of a normal-form violation, read off the input's shape and the offending object
+    (this is what identifies a known finding)"""
+    created = name not in input_names
+    if violation in ("union-remains", "T-or-null-union"):
+        if "union-inside-union-branch" in feats:
+            return "union-inside-union-branch"
+        if "struct-or-union-inside-intersection" in feats:
+            return "union-inside-intersection"
+        if created:
+            return "union-inside-object-created-by-chain"
+        return "other"
+    if violation == "anonymous-struct":
+        if created or "struct-inside-union-branch" in feats:
+            return "struct-inside-object-created-by-chain"
+        return "other"
+    if violation == "optional-field-not-nullable":
+        if re.search(r'mkField "[^"]*" \[[^\]]*\] \(TScalar A0 KAny DNil \[\]\) false', objtext):
+            return "any-from-undiscriminated-union"
+        if lang == "java" and (name in input_alias_names or re.search(r'mkField "[^"]*" \[[^\]]*\] \(TRef A0 "[^"]*" "[^"]*"\) false', objtext)):
+            return "field-rewritten-by-remove-intersections"
+        if "single-kind-scalar-union" in feats and re.search(r'mkField "[^"]*" \[[^\]]*\] \(TScalar (A0|\{\| nullable := false[^|]*\|\}) K\w+ DNil \[\]\) false', objtext):
+            return "single-kind-scalar-union-collapsed"
+        if created:
+            return "field-of-object-created-by-chain"
+        if lang == "php":
+            return "reference-inlined-by-inline-objects-with-types"
+        return "other"
+    return "other"
+
+
 def violations_of(ctx, tag, lang, outcome):
     path = os.path.join(ctx.scratch, "nfv_%s.v" % tag)
     with open(path, "w") as f:
@@ -128,9 +214,15 @@ def run(ctx, verdict, replay=None, model_ok=True):
         if budget == 0:
             break
         budget -= 1
-        for v in violations_of(ctx, str(i), jobs[i]["lang"], results[i]["outcome"]) or ["unknown"]:
-            verdict.propfail({"lang": jobs[i]["lang"], "violation": v},
-                             {"job": jobs[i], "observed_outcome": results[i]["outcome"][:5000],
+        input_names = {o["name"] for s_ in jobs[i]["schemas"] for o in s_["objects"]}
+        alias_names = {o["name"] for s_ in jobs[i]["schemas"] for o in s_["objects"] if o["type"]["k"] == "ref"}
+        feats = input_features(jobs[i])
+        offs = offenders_of(ctx, str(i), jobs[i]["lang"], results[i]["outcome"]) or \
+            [("?", "?", v) for v in violations_of(ctx, str(i), jobs[i]["lang"], results[i]["outcome"])] or [("?", "?", "unknown")]
+        for pkg, name, v in offs:
+            cause = cause_of(jobs[i]["lang"], v, object_text(results[i]["outcome"], pkg, name), name, input_names, alias_names, feats)
+            verdict.propfail({"lang": jobs[i]["lang"], "violation": v, "cause": cause},
+                             {"job": jobs[i], "offending_object": "%s.%s" % (pkg, name), "observed_outcome": results[i]["outcome"][:5000],
                               "predicate": 'nf_violations "%s" (output of the real chain) = []  (Model/NF.v)' % jobs[i]["lang"]})
         explained.add(i)
     explained.update(ev["NF"])
